@@ -538,8 +538,29 @@ def eval_numeric(t, env):
              "acos": math.acos, "atan": math.atan, "atan2": math.atan2, "abs": abs, "floor": math.floor}.get(t[1])
         if f:
             return f(*[eval_numeric(x, env) for x in t[2:]])
+        if t[1] == "copysign" and len(t) == 4:
+            return math.copysign(eval_numeric(t[2], env), eval_numeric(t[3], env))
+        if t[1] in ("mod", "fmod") and len(t) == 4:
+            a_, b_ = eval_numeric(t[2], env), eval_numeric(t[3], env)
+            return a_ % b_ if t[1] == "mod" else math.fmod(a_, b_)
+        if t[1] in ("int", "float") and len(t) == 3:
+            v_ = eval_numeric(t[2], env)
+            return float(int(v_)) if t[1] == "int" else v_
     if h in ("angle", "epoch"):
         return eval_numeric(t[1], env)
+    if h == "bool":
+        return bool(t[1])
+    if h == "phi":
+        return eval_numeric(t[2] if eval_numeric(t[1], env) else t[3], env)
+    if h == "cmp":
+        a_, b_ = eval_numeric(t[2], env), eval_numeric(t[3], env)
+        return {"Lt": a_ < b_, "LtE": a_ <= b_, "Gt": a_ > b_, "GtE": a_ >= b_, "Eq": a_ == b_, "NotEq": a_ != b_}[t[1]]
+    if h == "and":
+        return all(eval_numeric(x, env) for x in t[1:])
+    if h == "or":
+        return any(eval_numeric(x, env) for x in t[1:])
+    if h == "not":
+        return not eval_numeric(t[1], env)
     raise NotAlgebraic("not numeric: %s" % (t[0],))
 
 
